@@ -19,12 +19,12 @@ def run(prop, tier, seed, t0, replay):
         doc = json.load(open(replay))
         outs = []
         for c in doc["cases"][:20]:
-            p = subprocess.run([binp, "--one", c["argv_hex"]], stdout=subprocess.PIPE, stderr=subprocess.PIPE, env=env, text=True, errors="replace")
+            p = subprocess.run([binp, "--one", c["argv_hex"]], stdout=subprocess.PIPE, stderr=subprocess.PIPE, env=env, text=True, errors="replace", timeout=600)
             outs.append((p.returncode, p.stdout, p.stderr))
     else:
         def work(w):
-            p = subprocess.run([binp, str(w), str(nw), tier, str(seed)], stdout=subprocess.PIPE, stderr=subprocess.PIPE, env=env, text=True, errors="replace")
-            return p.returncode, p.stdout, p.stderr
+            rc_, out_, err_ = core.run_timed([binp, str(w), str(nw), tier, str(seed)], env, 900 if tier == "quick" else 3600)
+            return rc_, out_, err_
         with ThreadPoolExecutor(nw) as ex:
             outs = list(ex.map(work, range(nw)))
     names = ["cmdline_cases", "env_cases", "violations", "alloc_failure_runs", "alloc_failures_fired", "arguments_compared",
@@ -32,7 +32,9 @@ def run(prop, tier, seed, t0, replay):
     obs = {n: 0 for n in names}
     samples = []
     for rc, out, err in outs:
-        if rc not in (0, 1):
+        if rc == 124:
+            obs["harness_timeouts"] = obs.get("harness_timeouts", 0) + 1
+        elif rc not in (0, 1):
             kind = "crash"
             m = re.search(r"Assertion `([^']*)'", err)
             if "AddressSanitizer" in err:
